@@ -157,6 +157,8 @@ def check_locality(ctx, c):
         want = np.asarray(fresh(moved if dim > 1 else moved[0]))
         ctx.event("locality_comparisons")
         tol_big = (1e-12 + 64 * 2.3e-16 * common.maxabs(kk) * (abs(off) + 60.0)) * max(1.0, common.maxabs(want))
+        if not np.all(np.isfinite(want)):
+            continue  # NaN field of the Fourier generator (numerically negative spectrum): nothing to compare
         if not common.maxabs(got - want) <= tol_big:
             ctx.fail({"what": "depends-on-previous-positions(nearly-equal)", "gen": gen, "dim": dim, "offset": "large" if off else "zero"},
                      f"second call at positions shifted by {shift} (offset {off}): max diff to a fresh generator {common.maxabs(got - want):.3e}")
